@@ -5,6 +5,7 @@ package mimetype
 import (
 	ejson "encoding/json"
 	"fmt"
+	"strings"
 	"testing"
 
 	"pgregory.net/rapid"
@@ -30,6 +31,7 @@ type c10Case struct {
 	Limit uint32    `json:"limit"`
 	Spans []c10Span `json:"spans"`
 	Flags []string  `json:"flags"`
+	Prime vfB       `json:"prime,omitempty"` // another input detected immediately before (its parse may abort anywhere)
 }
 
 var c10GeoTypes = []string{"Feature", "FeatureCollection", "Point", "LineString", "Polygon", "MultiPoint", "MultiLineString", "MultiPolygon", "GeometryCollection"}
@@ -238,6 +240,18 @@ func c10Gen(t *rapid.T) c10Case {
 		c.Flags = append(c.Flags, f)
 	}
 	sortStrings(c.Flags)
+	if rapid.IntRange(0, 2).Draw(t, "prime") == 0 {
+		switch rapid.IntRange(0, 3).Draw(t, "pk") {
+		case 0:
+			c.Prime = vfB(rapid.SampledFrom(c04Special).Draw(t, "sp"))
+		case 1:
+			c.Prime = vfB(strings.Repeat(rapid.SampledFrom([]string{"[", "{\"a\":", "[{\"k\":", "[[1],"}).Draw(t, "deepshape"), rapid.SampledFrom([]int{100, 129, 200, 600, 1500}).Draw(t, "deepn")))
+		case 2:
+			c.Prime = vfB(c04DeepKeys(rapid.SampledFrom([]int{100, 129, 300}).Draw(t, "dk"), rapid.Bool().Draw(t, "close")))
+		default:
+			c.Prime = c09GenMutant(t).H
+		}
+	}
 	// limit: 0, len, len+1, or a cut that is not strictly inside a deciding span
 	nlen := len(c.Doc)
 	switch rapid.IntRange(0, 5).Draw(t, "lk") {
@@ -304,15 +318,19 @@ func c10Check(c c10Case) vfResult {
 	case visible[3]:
 		wantMime, wantExt, kind = "model/gltf+json", ".gltf", "gltf"
 	}
-	m := vfDetectAt(doc, c.Limit)
 	var r vfResult
+	if len(c.Prime) > 0 {
+		_ = Detect([]byte(c.Prime))
+		r.Labels = append(r.Labels, "primed")
+	}
+	m := vfDetectAt(doc, c.Limit)
 	r.Labels = append(r.Labels, "expect-"+kind)
 	r.Labels = append(r.Labels, c.Flags...)
 	if L != 0 && L <= len(doc) {
 		r.Labels = append(r.Labels, "truncated")
 	}
 	r.Nontrivial = len(c.Flags) > 0
-	r.Hash = vfHash(doc, vfHashU(uint64(c.Limit)))
+	r.Hash = vfHash(doc, vfHashU(uint64(c.Limit)), c.Prime)
 	if m.String() != wantMime || m.Extension() != wantExt {
 		r.Err = fmt.Errorf("limit %d: want %s (%s), got %s; doc %s", c.Limit, wantMime, wantExt, vfChainStr(m), vfQ(doc))
 	}
